@@ -56,6 +56,15 @@ def _simple_subject(e: ast.expr) -> bool:
     return isinstance(e, ast.Name)
 
 
+def _bool_simple(e) -> bool:
+    """A comparison of plain chains / constants (bool-valued, side-effect free, cheap to repeat)."""
+    if isinstance(e, ast.Compare) and all(isinstance(o, (ast.Eq, ast.NotEq, ast.Lt, ast.LtE, ast.Gt, ast.GtE, ast.Is, ast.IsNot)) for o in e.ops):
+        return all(_simple_subject(x) or isinstance(x, ast.Constant) for x in [e.left] + list(e.comparators))
+    if isinstance(e, ast.UnaryOp) and isinstance(e.op, ast.Not):
+        return _bool_simple(e.operand)
+    return False
+
+
 def _pattern_test(pat, subj):
     """(test expression | None for 'always', [(capture name, subject expression)]) or raises ValueError.
     ``subj`` is an expression, or a list of expressions for a tuple display matched by sequence patterns."""
@@ -85,6 +94,9 @@ def _pattern_test(pat, subj):
     if isinstance(pat, ast.MatchValue):
         return ast.Compare(left=clone(subj), ops=[ast.Eq()], comparators=[clone(pat.value)]), []
     if isinstance(pat, ast.MatchSingleton):
+        if _bool_simple(subj) and isinstance(pat.value, bool):
+            # the subject is a comparison: `is True` / `is False` is the comparison / its negation
+            return (clone(subj) if pat.value else ast.UnaryOp(op=ast.Not(), operand=clone(subj))), []
         return ast.Compare(left=clone(subj), ops=[ast.Is()], comparators=[ast.Constant(value=pat.value)]), []
     if isinstance(pat, ast.MatchAs) and pat.pattern is None:
         return None, ([(pat.name, subj)] if pat.name else [])
@@ -112,7 +124,7 @@ def lower_match(st: ast.Match, counter: list) -> list[ast.stmt]:
     if isinstance(subj, ast.Tuple) and not any(isinstance(e, ast.Starred) for e in subj.elts) and any(isinstance(c.pattern, (ast.MatchSequence, ast.MatchOr)) for c in st.cases):
         elems = []
         for e in subj.elts:
-            if _simple_subject(e) or isinstance(e, ast.Constant):
+            if _simple_subject(e) or isinstance(e, ast.Constant) or _bool_simple(e):
                 elems.append(e)
             else:
                 counter[0] += 1
